@@ -6,14 +6,14 @@ _COMMON_NOTE = ('Trusted: CPython ast, the gtverif engine and the rule tables wr
 
 def _t(level, technique, note=''):
     return {'level': 'Structural necessary conditions decided exactly by custom static analysis for all inputs; the behaviour itself is not decided. ' + level
-            + ' On the call-graph closure of the operations analysed, additionally: no cross-call memo (R-STATE c), identity-bearing encodings injective -- names of composite states, __eq__, look-up and memo keys, input word unmodified (R-INJ), declared NewType sorts State/Symbol/Direction respected (R-SORT), class invariants of the automata constructed or taken as operands asserted in canonical form (R-BUILD.inv).',
+            + ' On the call-graph closure of the operations analysed, additionally: no cross-call memo (R-STATE c), identity-bearing encodings injective -- names of composite states, __eq__, look-up and memo keys, input word unmodified (R-INJ), declared NewType sorts State/Symbol/Direction respected (R-SORT), class invariants of the automata constructed or taken as operands asserted in canonical form and nothing demanded of the value of a state or symbol (R-BUILD.inv), operands untouched by every function reached without passing through a procedure (R-EFFECT a), epsilon fresh for the alphabet / forwarded to callees / never appended to words (R-EPS const, default, word).',
             'technique': technique + ' + nominal sort check of the NewTypes + injectivity algebra for identity encodings, both on the call-graph closure', 'note': _COMMON_NOTE + note}
 
 
 TEXT = {
     'C01': _t('Decides: epsilon_closure is a complete saturation (nothing dropped, exits only on empty worklist), partial-map reads are guarded, operands untouched. Not decided: equality with the textbook relation.',
               'AST worklist-discipline rule on CFG guards + alias/effect summaries'),
-    'C02': _t('Decides: for n = 0..4 the word lengths that can reach the result of each enumerator are exactly 0..n (upper bound and level coverage, including n = 0 and n = 1); induction step per constructor for the regular-expression enumerator; kind dispatch and sibling tables; same TM budget / PDA limit on both sides; closedness and CNF typestates inside the enumerators. Not decided: nothing-missing / nothing-extra relative to the acceptance tests.',
+    'C02': _t('Decides: for n = 0..4 the word lengths that can reach the result of each enumerator are exactly 0..n (upper bound and level coverage, including n = 0 and n = 1); induction step per constructor for the regular-expression enumerator; kind dispatch and sibling tables; same TM budget / PDA limit on both sides; closedness and CNF typestates inside the enumerators; the TM step (M6) and the PDA stack step (M9, finite model) the enumerators run; only alphabet symbols are appended to words (R-EPS.word). Not decided: nothing-missing / nothing-extra relative to the acceptance tests.',
               'abstract interpretation of the enumerator bodies over word lengths (own interpreter in the analyser, concrete n) + dispatch-table and typestate rules'),
     'C03': _t('Decides: subset worklist enqueues exactly unseen subsets, operand untouched, guarded reads. Not decided: language equivalence.',
               'AST worklist-discipline rule + alias/effect summaries'),
@@ -23,19 +23,19 @@ TEXT = {
               'rewrite rules extracted from the if-chains and decided as Kleene-algebra identities by a derivative-based equivalence procedure in the analyser'),
     'C06': _t('Decides: state names of a translation come from one private generator or a provider whose universe covers the set joined; GNFA start/accept are fresh; the building blocks pass the epsilon their keys use and translate operand epsilons; operands untouched. Not decided: language equality for all expressions and elimination orders.',
               'provenance + universe-coverage rule for introduced names, epsilon def-use agreement, alias/effect summaries'),
-    'C07': _t('Decides: the CYK loop-nest schedule for every n <= 12 (each cell written after the cells it reads, reads exactly the splits), diagonal seeding and pair order; CNF typestate of the grammar at every use and CYK call; empty-word guard; CNF recogniser atoms. Not decided: that a cell holds exactly the deriving variables (a semantic fixed point) -- the thinnest claim of the twenty.',
+    'C07': _t('Decides: the CYK loop-nest schedule for every n <= 12 (each cell written after the cells it reads, reads exactly the splits), diagonal seeding and pair order; CNF typestate of the grammar at every use and CYK call; empty-word guard; CNF recogniser truth tables; the structural conditions of the on-the-fly Chomsky conversion (saturated fixed points, phase order, fresh variables registered in V). Not decided: that a cell holds exactly the deriving variables (a semantic fixed point) -- the thinnest claim of the twenty.',
               'index arithmetic of the loop nest extracted and evaluated in the analyser for n <= 12 + forward must-dataflow for the CNF typestate'),
     'C08': _t('Decides: six pure/in-place twins are paired correctly, input grammar untouched, nullable/unit closures saturated. The nullable fixpoint is recognised in flag form and in size-snapshot form (snapshot before the growing pass). Not decided: language preservation per phase.',
               'twin-pairing rule (dominance) + effect summaries + fixpoint discipline'),
-    'C09': _t('Decides: bounded closure worklist discipline: limit read at call time, counter once per pop, >= limit pops, each configuration enqueued once. Not decided: soundness/completeness of the whole search.',
+    'C09': _t('Decides: bounded closure worklist discipline: limit read at call time, counter once per pop, >= limit pops, each configuration enqueued once; guard and action of the stack step on a finite model of symbols and stacks (M9). Not decided: soundness/completeness of the whole search.',
               'worklist exit-condition rule + def-use of the limit'),
     'C10': _t('Decides: twins of the normal forms deep-copy and call the in-place sibling; pda_to_cfg does not touch its argument. Not decided: language equality.',
               'twin-pairing rule + effect summaries'),
     'C11': _t('Decides: head sign (left clamped at 0), missing-transition default, blank extension; verdict loop and trace loop agree; step precondition at every call incl. the first; verdicts only on halting states; same budget. Counter model of both loops: budgets 0..3 x (never halts | accepts/rejects after 0..3 steps) x word length 0/2: steps = min(j,k), no step in a halting state, right verdict, trace length, initial tape. Not decided: step-by-step agreement with delta.',
               'extracted head-update model evaluated in the analyser + must-hold dataflow for the step precondition + sibling skeleton comparison'),
-    'C12': _t('Decides: K1 no recorded feedback is dropped, K2 OK exclusivity, K3 handlers report, K4 answer/reference roles and message polarity, K5 minimal counterexample, K6 same bound, K7 state-limit polarity. K6 also: a bounded comparison called without its bound while the checker has one; K8: answer rows compared position-wise need a row-count comparison; builder state sets are images of the declared ones. Not decided: completeness of each structural criterion.',
+    'C12': _t('Decides: K1 no recorded feedback is dropped, K2 OK exclusivity, K3 handlers report, K4 answer/reference roles and message polarity, K5 minimal counterexample, K6 same bound, K7 state-limit polarity. K6 also: a bounded comparison called without its bound while the checker has one; K8: answer rows compared position-wise need a row-count comparison; builder state sets are images of the declared ones; the word-list reader yields no token for an empty list; the TM step and PDA stack step with which the languages of submitted machines are computed. Not decided: completeness of each structural criterion.',
               'CFG reachability/kill analysis of feedback accumulators + role taint from notebook templates + extracted integer model'),
-    'C13': _t('Decides: along each chain tag -> generator -> printer -> template variable -> checker parameter -> parser, commands/arity resolve, printed keywords, state-name formats (regular-language inclusion), operator tokens, symbol class and CFG epsilon spelling are inside what the reader accepts. Also: reserved words of each parser have a consumer in its builder; an empty final declaration is accepted (effective default); line-reader delimiters cannot occur in labels; builder state sets are images of the declared ones; visitors build the constructor of each alternative. Not decided: that the semantic criterion accepts the generated object.',
+    'C13': _t('Decides: along each chain tag -> generator -> printer -> template variable -> checker parameter -> parser, commands/arity resolve, printed keywords, state-name formats (regular-language inclusion), operator tokens, symbol class and CFG epsilon spelling are inside what the reader accepts. Also: reserved words of each parser have a consumer in its builder; an empty final declaration is accepted (effective default); line-reader delimiters cannot occur in labels; builder state sets are images of the declared ones; visitors build the constructor of each alternative (finite-shape evaluation, Kleene-algebra identities); the structural demands of the reverse checker are met by dfa_reverse on every path. Not decided: that the semantic criterion accepts the generated object.',
               'template/command table cross-check + regular-language inclusion between writer formats and reader regexes (decided on automata in the analyser)'),
     'C14': _t('Decides: totalisation twin, reachability search discipline, operands untouched / not shared. Not decided: language identities of the constructions.',
               'twin rule + level-synchronous search rule + effect summaries'),
